@@ -5,6 +5,7 @@ explored trace as an independent check inside the fragments where the theorems a
 `sem` is the answer of the Lean `Sem` evaluator for the program (driver mode `sem`), or None.
 Each monitor returns a list of human-readable violation strings (empty = holds on this trace).
 """
+from . import fragment
 from . import lockstep as L
 
 
@@ -112,6 +113,26 @@ def c03(tr, sem=None):
                         v.append(f'node {o[2]} invoked with a failure object as {k}: {L.val_str(x)}')
                     if isinstance(x, dict) and 'rec' in x:
                         v.append(f'node {o[2]} invoked with a Recurrent marker as {k}: {L.val_str(x)}')
+    if not v and not fragment.features(tr['graph']).get('rec_outside_reader'):
+        # "invoked only after every node it declares as an input has finished": no producer of an ordinary input is in the
+        # middle of an execution (again — a restart) when the body is called. (A reader outside a recurrent subgraph of a
+        # node inside it is the recorded finding `rec_outside_reader`.)
+        preds = {}
+        for e in tr['graph']['edges']:
+            if e['kwarg']:
+                preds.setdefault(e['v'], []).append(e['u'])
+        running = set()
+        for i, e in enumerate(_events(tr)):
+            for o in e.get('obs', []):
+                if o[0] == 'emit' and o[1] == 'nstart':
+                    running.add(o[3])
+                elif o[0] == 'emit' and o[1] == 'ncomplete':
+                    running.discard(o[3])
+                elif o[0] == 'body' and o[4] == 1 and not v:
+                    busy = [p for p in preds.get(o[2], []) if p in running and p != o[2]]
+                    if busy:
+                        v.append(f'node {o[2]} was invoked while its input node {busy[0]} was being executed (again): '
+                                 f'its inputs were not final')
     if sem is not None and not v:
         want = set(sem['calls'])
         for _, o in _obs(tr, ('body',)):
@@ -246,7 +267,14 @@ def c09_declared_routing(tr):
                 continue
             lab = last[m['decider']]
             want = next((c for l, c in m['cases'] if l == lab), None) if isinstance(lab, str) else None
-            if want is None or want not in last:
+            if want is None:
+                continue
+            if want not in last:
+                # the store has seen the decision but never a value of the declared case: the consumer got somebody
+                # else's value (e.g. two switch declarations merged into one node by the builder)
+                if not v:
+                    v.append(f'node {n} declares {p}: SwitchCase(decider {m["decider"]}, …) and was invoked with {p}={kw[p]!r}; '
+                             f'the decider returned {lab!r}, but its declared case node {want} has not produced a value')
                 continue
             if kw[p] != last[want] and not v:
                 v.append(f'node {n} declares {p}: SwitchCase(decider {m["decider"]}, …) and was invoked with {p}={kw[p]!r}; the '
@@ -605,7 +633,7 @@ def c06_oracle(tr):
 
 HYPOTHESES = {'C06': c06_oracle}
 
-EVERYWHERE = ('C02', 'C04', 'C06', 'C09', 'C12', 'C13', 'C14', 'C19')      # monitors that need no fragment hypothesis
+EVERYWHERE = ('C02', 'C03', 'C04', 'C06', 'C09', 'C12', 'C13', 'C14', 'C19')      # monitors that need no fragment hypothesis
 
 def c19_strict(tr, sem=None):
     """C19 without the two excuses for recorded findings: the multiplicity rule also inside recurrent pipelines, and a
